@@ -35,6 +35,7 @@ macro_rules
               | apply ec_evCancel $hR (Internal.event $hA)
               | apply ec_cancelAllFor $hR (Internal.event $hA)
               | apply ec_cancelKindFor $hR (Internal.event $hA)
+              | apply ec_cancelUserAll $hR (Internal.event $hA)
               | apply ec_guardSignal $hR (Internal.res $hA)
               | apply ec_signal $hR (Internal.res $hA)
               | apply ec_guardWithdraw $hR (Internal.event $hA) (Internal.res $hA)
@@ -177,6 +178,7 @@ macro_rules
               | apply ec_signal $hR (Internal.res $hA)
               | apply ec_guardWaitLeave $hR (Internal.event $hA) (Internal.res $hA)
               | apply ec_cancelKindFor $hR (Internal.event $hA)
+              | apply ec_cancelUserAll $hR (Internal.event $hA)
               | apply ec_recordPool $hR
               | apply ec_recordPQ $hR
               | apply ec_setPoolInUse $hR
